@@ -438,6 +438,7 @@ func (m *Muxer) Close() {
 	m.mutex.Unlock()
 
 	m.cond.Broadcast()
+	verifHook("close:broadcasted")
 
 	for _, stream := range m.streams {
 		stream.close()
@@ -524,6 +525,7 @@ func (m *Muxer) rotateParts(nextDTS time.Duration) error {
 	m.mutex.Lock()
 	err := m.rotatePartsInner(nextDTS)
 	m.mutex.Unlock()
+	verifHook("rotateParts:unlocked")
 
 	if err != nil {
 		return err
@@ -561,6 +563,7 @@ func (m *Muxer) rotateSegments(
 	m.mutex.Lock()
 	err := m.rotateSegmentsInner(nextDTS, nextNTP, force)
 	m.mutex.Unlock()
+	verifHook("rotateSegments:unlocked")
 
 	if err != nil {
 		return err
@@ -609,6 +612,7 @@ func (m *Muxer) handleMultivariantPlaylist(w http.ResponseWriter, r *http.Reques
 				break
 			}
 
+			verifHook("wait:multivariant")
 			m.cond.Wait()
 		}
 
